@@ -4,12 +4,18 @@ proof:  PPLV.Props.C10 — for every pair of K5 component domains, every compone
         state of the lazy flag: reduce_preserves_meet (all five policies), lazy_reduce_preserves_meet,
         shrink_to_congruence_preserves_meet + shrink_arithmetic (C++ % = Int.tmod), transformer_sound,
         is_empty_sound, contains_sound, any_component_sound.
-tie:    harness/c10_product.cc (3 pair sets x 5 policies) runs seeded histories over pools of products
-        with *shadow* components on which the same component-wise operators are applied without
-        reduction; the driver pplv_ps judges every observation: components shrink, the intersection is
-        unchanged (exactly with K1 when both components are expressible as constraint systems,
-        on enumerated lattice points of the raw grid component otherwise), operators that reduce
-        first contain the exact image of the operands' intersections, definite predicate answers.
+tie:    harness/c10_product.cc (4 pair sets = 8 component pairs x 5 policies; Grid first and second, second component
+        polyhedron / box / BD shape / octagon) runs seeded histories over pools of products; grids and bounds have
+        non-unit divisors and moduli.  EVERY transformer of the interface is called (affine / generalized / bounded images
+        and preimages, unconstrain, time_elapse, closure, dimension operators, add/refine with constraint(s)/congruence(s),
+        intersection / upper bound / difference / concatenate / widening) and every predicate (relation_with constraint
+        incl. strict and saturating ones / congruence / generator, maximize / minimize / bounds, is_discrete / bounded /
+        topologically_closed / constrains / contains / disjoint / empty / universe).  The driver pplv_ps judges every
+        observation three ways: (A) it is a reduction of the unreduced shadow components (components shrink, intersection
+        unchanged); (B) it contains the exact image, computed by the K1 reference operators, of the last observed
+        intersection through all operators applied since; (C) it contains pointwise witnesses of that image.  Pairs with
+        a proper Grid are judged on ALL lattice points of the grid inside the K1 bounding box of the other component
+        (exhaustive when that box is bounded and the grid has no line), the others exactly with K1.
 """
 import collections, concurrent.futures as cf, hashlib, os, re
 from . import poly_common as pc
@@ -207,10 +213,13 @@ def run(ctx):
         "minimized_constraints and minimized_congruences valid on the element) are the content of C01-C05 for the real domains",
         "pairs whose components are both expressible as constraint systems (polyhedra, boxes, BD shapes, octagons, and grids that are "
         "affine spaces or empty) are judged exactly by the proved K1 deciders; for the other pairs with a Grid the intersection is "
-        "judged on enumerated lattice points of the raw grid component in a window (refutation-complete only), containment of the "
-        "grid component itself exactly on its generators",
-        "the raw (unreduced) components are those of shadow objects on which the harness applies the same component-wise operators; "
-        "operators that reduce first are judged by image(meet of raw operands) <= result <= component-wise result",
+        "judged on all lattice points of the grid component inside the K1 bounding box of the other component (exhaustive, hence exact, "
+        "when the box is bounded and the grid has no line; a window otherwise: refutation-complete only); containment of the grid "
+        "component itself is decided exactly on its generators",
+        "transformers are judged against the specification, not against the shadows: the exact image (K1 reference operators, "
+        "PPLV.Lin.OpsProofs) of the last observed intersection must be contained in the next observation; fold_space_dimensions and "
+        "proper congruences on polyhedral pairs are judged on pointwise witnesses / finitely many hyperplanes only",
+        "time_elapse on products with a Grid follows the grid definition (integer time): the image is judged for time steps 0, 1, 2, 3",
         "'all histories' of the real code is sampled by seeded histories",
     ]
 
